@@ -1,7 +1,7 @@
 #!/usr/bin/env python3
 """Aggregate the `maxulp|subject|ulps|where` notes of the last C16 run (build/run/C16/*.jsonl)."""
 import glob, json, os, sys
-root = os.path.dirname(os.path.dirname(os.path.abspath(__file__)))
+root = os.path.dirname(os.path.dirname(os.path.abspath(__file__)))  # /verif
 best = {}
 for f in glob.glob(os.path.join(root, "build", "run", "C16", "*.jsonl")):
     for line in open(f, errors="replace"):
